@@ -71,6 +71,14 @@ int main(int argc, char **argv)
 	sercomm_init();
 	for (i = 1; i < argc; i++)
 		sercomm_register_rx_cb(atoi(argv[i]), rx_cb);
+	/* the handler table has _SC_DLCI_MAX entries: registering beyond it must be refused (and must not write anywhere) */
+	for (i = _SC_DLCI_MAX; i < 256; i += (i < _SC_DLCI_MAX + 2) ? 1 : 63) {
+		if (sercomm_register_rx_cb(i, rx_cb) >= 0) {
+			fprintf(stderr, "SUMMARY: sercomm_register_rx_cb() accepted DLCI %d, the handler table has %d entries\n", i, _SC_DLCI_MAX);
+			fflush(NULL);
+			abort();
+		}
+	}
 	while (fgets(line, sizeof(line), stdin)) {
 		switch (line[0]) {
 		case 'N':
